@@ -49,6 +49,8 @@ const F72: &[(&str, &str)] = &[
     ("/ACC/REJT@72-no-closing-slash", "/ACC/REJT"),
     ("RETN/@72-no-leading-slash", "RETN/AC04 TEXT"),
     ("//RETN@72", "//RETN"),
+    ("/COVENANT/@72-other-code-word", "/COVENANT/TEXT"),
+    ("/COVR/@72-other-code-word", "/COVR/TEXT"),
     ("/COV/@72", "/COV/COVER PAYMENT"),
     ("/COVER/@72", "/COVER/PAYMENT"),
 ];
@@ -153,6 +155,23 @@ pub fn judge(case: &Case, l: &mut Local, peers: Option<&[(String, Observed)]>) {
         }
         if !expected && !cov_word && o.cover {
             v(l, &ty, "classified-cover-without-sequence", cov, format!("{ty}: no sequence B and no cover word, but is_cover_message is true"), case);
+        }
+    }
+    // MT205 detects a cover by the code words /COV/ and /COVER/ in field 72: present at a line start = cover,
+    // no "COV" anywhere = not a cover, another slash-delimited code word that merely begins with those
+    // letters (/COVENANT/, /COVR/) is not one of the two code words
+    if case.mt == "205"
+        && case.cov.is_none()
+        && let Some(t) = f72
+    {
+        let is_word = t.lines().any(|x| x.starts_with("/COV/") || x.starts_with("/COVER/"));
+        let other_word = !is_word && t.lines().any(|x| x.starts_with("/COVENANT/") || x.starts_with("/COVR/"));
+        let no_trace = !t.to_uppercase().contains("COV");
+        if is_word && !o.cover {
+            v(l, &ty, "cover-word-not-classified", at72, format!("{ty}: field 72 {:?} carries a cover code word but is_cover_message is false", t), case);
+        }
+        if (no_trace || other_word) && o.cover {
+            v(l, &ty, "classified-cover-without-word", at72, format!("{ty}: field 72 {:?} carries neither /COV/ nor /COVER/ but is_cover_message is true", t), case);
         }
     }
     // method implied by the predicates
@@ -367,7 +386,7 @@ pub fn run(cfg: &Config) -> i32 {
     });
     let mut rep = Report::default();
     rep.exhaustive = true;
-    rep.rule = "exhaustive product of 18 field-72 variants (code words at line start, second line, mid-line, look-alikes, lower case, cover words) x 6 {108:} variants x 5 {119:} variants over real messages of MT103/202/205 (with and without cover sequence) and of each of the other 27 types, each through the typed predicates and the real parse plugin. Non-trivial = the message parsed and was classified; distinct = distinct message texts".into();
+    rep.rule = "exhaustive product of 20 field-72 variants (code words at line start, second line, mid-line, look-alikes, lower case, cover words) x 6 {108:} variants x 5 {119:} variants over real messages of MT103/202/205 (with and without cover sequence) and of each of the other 27 types, each through the typed predicates and the real parse plugin. Non-trivial = the message parsed and was classified; distinct = distinct message texts".into();
     rep.assumptions = vec![
         "documented places: field 72 line start and the whole {108:} value; mid-line, substring and lower-case spellings are not judged against the word list (only for cross-type agreement and method implication)".into(),
     ];
